@@ -81,11 +81,13 @@ impl WrapConfig {
             _ if max_line_length == 0 => 0,
             wrap_max_lines => {
                 let single_pane_width = available_terminal_width / 2;
+                // Saturating: `--wrap-max-lines` and `--width` are arbitrary numbers, and a limit
+                // of `usize::MAX` bytes is as good as none.
                 let add_25_percent_or_term_width =
-                    |x| x + std::cmp::max((x * 250) / 1000, single_pane_width);
+                    |x: usize| x.saturating_add(std::cmp::max(x / 4, single_pane_width));
                 std::cmp::max(
                     max_line_length,
-                    add_25_percent_or_term_width(single_pane_width * wrap_max_lines),
+                    add_25_percent_or_term_width(single_pane_width.saturating_mul(wrap_max_lines)),
                 )
             }
         }
@@ -120,7 +122,7 @@ fn adapt_wrap_max_lines_argument(arg: String) -> usize {
     } else {
         arg.parse::<usize>()
             .unwrap_or_else(|err| fatal(format!("Invalid wrap-max-lines argument: {err}")))
-            + 1
+            .saturating_add(1)
     }
 }
 
